@@ -165,3 +165,21 @@ func (s *Sim) ersByLetter(def *EDSDef, letter string) *edsv1.ExtendedDaemonSetRe
 	}
 	return nil
 }
+
+// injectForeignPod: a pod that does not belong to any ExtendedDaemonSet of the run.
+func (s *Sim) injectForeignPod(ns, name, node string, lbls map[string]string, ownerDS string) {
+	p := &corev1.Pod{
+		ObjectMeta: metav1.ObjectMeta{Namespace: ns, Name: name, Labels: lbls},
+		Spec:       corev1.PodSpec{Containers: []corev1.Container{{Name: "main", Image: "foreign:1"}}},
+	}
+	if ownerDS != "" {
+		p.OwnerReferences = []metav1.OwnerReference{{APIVersion: "apps/v1", Kind: "DaemonSet", Name: ownerDS, UID: types.UID("uid-" + ownerDS), Controller: bptr(true)}}
+		if s.Store.GetPod(ns, "none") == nil {
+			ds := &appsv1.DaemonSet{ObjectMeta: metav1.ObjectMeta{Namespace: ns, Name: ownerDS, UID: types.UID("uid-" + ownerDS)}, Spec: appsv1.DaemonSetSpec{Selector: &metav1.LabelSelector{MatchLabels: lbls}}}
+			if _, err := s.Store.Get(KDS, ns, ownerDS); err != nil {
+				s.Store.Inject(ds)
+			}
+		}
+	}
+	s.finishInjected(p, node, PodState{Kind: "ready"})
+}
